@@ -11,8 +11,7 @@ C == INSTANCE CycleLimit WITH NeedSet <- {}, MaxSet <- {}, Infinite <- Inf, MinT
 Limits(n) == IF n = Inf THEN {64, 65, 100, 127, 128, 129, 1000}
              ELSE {m \in {64, n - 2, n - 1, n, n + 1, n + 2, 2 * n, 100000} : m >= 64}
 Hints(m) == {e \in {0, 1, 64, 65, 100, m - 1, m} : e <= m}
-Scenarios == {s \in {[n |-> n, m |-> m, e |-> e] : n \in NEEDS, m \in UNION {Limits(k) : k \in NEEDS}, e \in UNION {Hints(m2) : m2 \in UNION {Limits(k) : k \in NEEDS}}} :
-               s.m \in Limits(s.n) /\ s.e \in Hints(s.m)}
+Scenarios == UNION {UNION {{[n |-> n, m |-> m, e |-> e] : e \in Hints(m)} : m \in Limits(n)} : n \in NEEDS}
 OptMax == {0, 1, 63, 64, 65, 100, 1000, 65536}
 OptExp == {0, 1, 63, 64, 65, 100, 101, 1000, 1001, 65536, 65537}
 SetToSeq(S0) == LET RECURSIVE ToSeq(_)
